@@ -211,6 +211,7 @@ pub enum TyperError {
     /// A template was given more arguments than it expects
     TooManyTemplateArguments(SourceLocation),
     TemplateInstantiationTooDeep(SourceLocation),
+    FunctionTemplateNotDefined(SourceLocation),
 
     /// Type id with declarator modifiers are not valid for any RSSL types
     InvalidTypeDeclarator(SourceLocation),
@@ -1023,6 +1024,11 @@ impl CompileError for TyperExternalError {
             },
             TyperError::TooManyTemplateArguments(loc) => w.write_message(
                 &|f| write!(f, "too many template arguments"),
+                *loc,
+                Severity::Error,
+            ),
+            TyperError::FunctionTemplateNotDefined(loc) => w.write_message(
+                &|f| write!(f, "function template is used but not defined"),
                 *loc,
                 Severity::Error,
             ),
